@@ -64,3 +64,25 @@ for _k, _v in {
  "C20": "Round 10: C20/no-reentrant-lock (must-lockset: no same-receiver callee re-acquires a held lock).",
 }.items():
     EXTRA_NOTES[_k] = (EXTRA_NOTES.get(_k, "") + " " + _v).strip()
+
+# Rules added after the eleventh seeded round.
+for _k, _v in {
+ "C01": "Round 11: C01/match-every-chunk (must-pass-through: after every chunk a read-until loop appended, the accumulation is handed to the matcher before the next read), C01/op-options-applied.",
+ "C02": "Round 11: C02/eom-pattern-shape (regexp/syntax: the 1.1 end-of-chunks pattern is bounded by line boundaries on both sides of ##, the 1.0 pattern requires the whole literal), C02/size-as-declared (the chunk appended is data[cursor:cursor+size] with size the converted header value itself).",
+ "C04": "Round 11: C04/level-detection also requires the candidate list to be returned as collected (no second pass that drops or adds levels); C04/found-read-until.",
+ "C05": "Round 11: C05/closed-result-zero (a worker that may close its result channel without sending does so only once the spawner's own cancel-only context is over, or the spawner examines the value), C05/netconf-deadline-resolved, C05/found-read-until.",
+ "C06": "Round 11: C06/pipe-writer-closed (no in-process pipe whose write end nobody closes), C06/found-chunk-decoder.",
+ "C07": "Round 11: C07/close-reaches-transport also demands that Transport.Close reaches Implementation.Close on every path, whatever the implementation says about its liveness.",
+ "C08": "Round 11: C08/found-read-returns-dequeued.",
+ "C09": "Round 11: C09/deadline-resolved (every deadline of the NETCONF driver takes its duration from Channel.GetTimeout: a configured 0 means the maximum for the hello exchange too).",
+ "C10": "Round 11: C10/one-answer-per-pass (on the true edge of a credential prompt's match nothing but that prompt's own credential is typed before the next chunk is read); C10/cleanup-requeue also demands that the requeue depends on nothing but the bytes being there.",
+ "C11": "Round 11: C11/one-answer-per-pass, C11/as-options-wiring (each on-x list of a definition reaches exactly the hook of its name).",
+ "C12": "Round 11: C12/found-read-until, C12/found-transport-pipe, C12/found-get-prompt.",
+ "C13": "Round 11: C13/failed-types-agree (every concrete type stored to Response.Failed is one AppendResponse asserts).",
+ "C14": "Round 11: C14/error-before-use (constructors: no product of a call is used before the error that came with it was tested), C14/found-platform-fresh.",
+ "C16": "Round 11: C16/no-remote-tty (the system transport never starts ssh with -t / -tt / -e / RequestTTY / EscapeChar).",
+ "C17": "Round 11: C17/as-options-wiring, C17/found-transport-pipe; the priv-steps foundation now carries the returned-as-collected clause.",
+ "C18": "Round 11: C18/found-response-record.",
+ "C19": "Round 11: C19/error-before-use.",
+}.items():
+    EXTRA_NOTES[_k] = (EXTRA_NOTES.get(_k, "") + " " + _v).strip()
